@@ -87,3 +87,10 @@ Example C20_example :
   (* roundrobin+sticky(buffer(handler)) around a handler that sends a Set-Cookie of its own: both cookies arrive *)
   run [] [[2; 5;0;1; 7;0;0; 0; 6;3; 2;1;33]] = [[0; 200; 1; 1; hash_bytes [33]; 0; 0; 2; 0]].
 Proof. split; [repeat constructor|split; [|split]; vm_compute; reflexivity]. Qed.
+
+(* non-vacuity of the configurable answer: stream(cbreaker with the redirect fallback, tripped) answers 302, the same
+   breaker with the default fallback 503; in both the handler is not invoked *)
+Example C20_redirect_fallback_example :
+  run [] [[2; 0;0;0; 4;1;1; 0; 1;200; 2;1;33]; [2; 0;0;0; 4;1;0; 0; 1;200; 2;1;33]]
+  = [[0; 302; 0; 1; hash_bytes [6]; 0; 0; 0; 0]; [0; 503; 0; 1; hash_bytes [3]; 0; 0; 0; 0]].
+Proof. vm_compute. reflexivity. Qed.
